@@ -9,7 +9,13 @@
 //                         op of the script (constructor-with-lock / lock), or a second acquire in one op
 //   * balance           : after every op, hold != number of live guards that CLAIM the mutex (g.protects(&m))
 //   * held-after-destroy: after every guard was destroyed some hold is non-zero
+// `api` prints which transfer operations (copy/move construction, copy/move assignment, swap) each REAL guard type offers
+// (type traits), compared with the model's table [offered]; mvc/cpc/mva/cpa/swap are executed for every type that offers
+// them (if constexpr), expected by the model or not, under the same oracle.
 #include <new>
+#include <string>
+#include <type_traits>
+#include <utility>
 #include "vharness.hpp"
 #include <frg/mutex.hpp>
 #include <frg/qs.hpp>
@@ -60,6 +66,32 @@ static_assert(sizeof(UL) <= 64 && sizeof(SL) <= 64 && sizeof(QL) <= 64);
 
 static Mx mx[NM];
 static Slot slot[NG];
+
+// ---- the transfer API surface of a guard type, detected from the REAL class, and every offered operation made
+// executable through `if constexpr` (an operation the model does not expect is executed too: the oracle judges it)
+template<typename G> static std::string api_row(char k) {
+	char b[64];
+	snprintf(b, sizeof b, "%c cc%d mc%d ca%d ma%d sw%d", k, (int)std::is_copy_constructible_v<G>, (int)std::is_move_constructible_v<G>,
+		(int)std::is_copy_assignable_v<G>, (int)std::is_move_assignable_v<G>, (int)std::is_swappable_v<G>);
+	return b;
+}
+template<typename G> static G &as(Slot &s) { return *reinterpret_cast<G *>(s.buf); }
+template<typename G> static bool do_move_construct(Slot &dst, Slot &src) {
+	if constexpr(std::is_move_constructible_v<G>) { new(dst.buf) G(std::move(as<G>(src))); return true; } else return false;
+}
+template<typename G> static bool do_copy_construct(Slot &dst, Slot &src) {
+	if constexpr(std::is_copy_constructible_v<G>) { new(dst.buf) G(static_cast<const G &>(as<G>(src))); return true; } else return false;
+}
+template<typename G> static bool do_move_assign(Slot &dst, Slot &src) {
+	if constexpr(std::is_move_assignable_v<G>) { as<G>(dst) = std::move(as<G>(src)); return true; } else return false;
+}
+template<typename G> static bool do_copy_assign(Slot &dst, Slot &src) {
+	if constexpr(std::is_copy_assignable_v<G>) { as<G>(dst) = static_cast<const G &>(as<G>(src)); return true; } else return false;
+}
+template<typename G> static bool do_swap(Slot &a, Slot &b) {
+	if constexpr(std::is_swappable_v<G>) { using std::swap; swap(as<G>(a), as<G>(b)); return true; } else return false;
+}
+#define BY_KIND(k, f, a, b) ((k) == 'u' ? f<UL>(a, b) : (k) == 's' ? f<SL>(a, b) : f<QL>(a, b))
 
 static Mx *mutex_of(Slot &s) { return s.kind == 'u' ? s.u()._mutex : s.kind == 's' ? s.s()._mutex : s.q()._mutex; }
 static bool flag_of(Slot &s) { return s.kind == 'u' ? s.u()._is_locked : s.kind == 's' ? s.s()._is_locked : s.q()._locked; }
@@ -125,6 +157,7 @@ static void body(const vh::Lines &ls) {
 		const std::string &o = t[0];
 		acq_budget = 0;
 		const char *res = "ok";
+		std::string res_s;
 		try {
 			if(o == "new" || o == "defer" || o == "adopt" || o == "empty") {
 				char k = t[1][0]; int g = gi(t[2]); int m = o == "empty" ? 0 : mi(t[3]);
@@ -145,20 +178,23 @@ static void body(const vh::Lines &ls) {
 					if(k == 'u') new(slot[g].buf) UL(); else new(slot[g].buf) SL();
 					slot[g].kind = k;
 				}
-			} else if(o == "mvc") {
+			} else if(o == "api") {
+				res_s = "api " + api_row<UL>('u') + " | " + api_row<SL>('s') + " | " + api_row<QL>('q');
+				res = res_s.c_str();
+			} else if(o == "mvc" || o == "cpc") {
+				// construction of a new guard g from h (by move / by copy); executed whenever the real type offers it
 				char k = t[1][0]; int g = gi(t[2]), h = gi(t[3]);
-				if(g < 0 || h < 0 || slot[g].kind || !slot[h].kind || k == 'q' || slot[h].kind != k) res = "invalid";
-				else {
-					if(k == 'u') new(slot[g].buf) UL(std::move(slot[h].u())); else new(slot[g].buf) SL(std::move(slot[h].s()));
-					slot[g].kind = k;
-				}
-			} else if(o == "mva" || o == "swap") {
+				if(g < 0 || h < 0 || slot[g].kind || !slot[h].kind || slot[h].kind != k || (k != 'u' && k != 's' && k != 'q')) res = "invalid";
+				else if(o == "mvc" ? BY_KIND(k, do_move_construct, slot[g], slot[h]) : BY_KIND(k, do_copy_construct, slot[g], slot[h])) slot[g].kind = k;
+				else res = "invalid";
+			} else if(o == "mva" || o == "cpa" || o == "swap") {
 				int g = gi(t[1]), h = gi(t[2]);
-				if(g < 0 || h < 0 || !slot[g].kind || !slot[h].kind || slot[g].kind == 'q' || slot[g].kind != slot[h].kind) res = "invalid";
-				else if(o == "mva") {
-					if(slot[g].kind == 'u') slot[g].u() = std::move(slot[h].u()); else slot[g].s() = std::move(slot[h].s());
-				} else {
-					if(slot[g].kind == 'u') swap(slot[g].u(), slot[h].u()); else swap(slot[g].s(), slot[h].s());
+				if(g < 0 || h < 0 || !slot[g].kind || !slot[h].kind || slot[g].kind != slot[h].kind) res = "invalid";
+				else {
+					char k = slot[g].kind;
+					bool done = o == "mva" ? BY_KIND(k, do_move_assign, slot[g], slot[h])
+						: o == "cpa" ? BY_KIND(k, do_copy_assign, slot[g], slot[h]) : BY_KIND(k, do_swap, slot[g], slot[h]);
+					if(!done) res = "invalid";
 				}
 			} else if(o == "lock" || o == "unlock" || o == "del" || o == "isl") {
 				int g = gi(t[1]);
